@@ -174,3 +174,151 @@ Example poll_example :
   let s := prun false false (pinit false 0 [(0, 1)]) ops in
   pc s = PExit /\ bad s = false.
 Proof. vm_compute. split; reflexivity. Qed.
+
+(* ---- no lost wake-up: once deliveries stop handing out work, the loop can always finish ---------- *)
+Definition Inv2 (s : pstate) : Prop :=
+  Inv s /\ NoDup (running s) /\ (forall j, In j (running s) -> In j (map fst (workers s))).
+
+Lemma in_remove1_inv x j l : In x (remove1 Nat.eqb j l) -> In x l.
+Proof.
+  induction l as [|y r IH]; cbn; [tauto|]. destruct (Nat.eqb j y); [intros H; right; exact H|].
+  intros [H|H]; [left; exact H | right; apply IH; exact H].
+Qed.
+
+Lemma nodup_remove1 j l : NoDup l -> NoDup (remove1 Nat.eqb j l) /\ ~ In j (remove1 Nat.eqb j l).
+Proof.
+  induction l as [|y r IH]; cbn; intros H; [split; [constructor | tauto]|].
+  inversion H as [|? ? Hn Hr]; subst. destruct (Nat.eqb j y) eqn:E.
+  - apply Nat.eqb_eq in E. subst. split; assumption.
+  - apply Nat.eqb_neq in E. destruct (IH Hr) as [H1 H2]. split.
+    + constructor; [|exact H1]. intros Hin. apply Hn. apply in_remove1_inv in Hin. exact Hin.
+    + intros [Hy|Hin]; [congruence | tauto].
+Qed.
+
+Lemma inv2_init enq starts : nodupb Nat.eqb (map fst starts) = true -> Inv2 (pinit false enq starts).
+Proof.
+  intros H. split; [apply inv_init; exact H|]. cbn. split; [apply nodupb_NoDup; exact H | tauto].
+Qed.
+
+Lemma inv2_step s o : Inv2 s -> Inv2 (pstep false false s o).
+Proof.
+  intros [HI [Hn Hr]]. split; [apply inv_step; exact HI|].
+  destruct HI as (I1 & I2 & I3 & I4).
+  destruct o as [|enq starts|j]; cbn.
+  - destruct (pc s); cbn; try (split; assumption);
+      [destruct (running s) eqn:E; cbn; rewrite ?E; split; assumption | destruct (queue s); cbn; split; assumption].
+  - destruct (pc s); cbn; try (split; assumption).
+    destruct (queue s) as [|q]; [destruct enq; [destruct starts|]; cbn; split; assumption|].
+    destruct (fresh s starts) eqn:Ef; cbn; [|split; assumption].
+    apply fresh_spec in Ef. destruct Ef as [F1 F2]. rewrite map_app. split.
+    + apply NoDup_app_intro; auto. intros x Hx Hin. apply (F2 x Hx). apply Hr. exact Hin.
+    + intros x Hx. apply in_or_app. apply in_app_or in Hx. destruct Hx as [H|H]; [left; apply Hr; exact H | right; exact H].
+  - destruct (assoc Nat.eqb j (workers s)) as [k|] eqn:Ea; cbn; [|split; assumption].
+    pose proof (assoc_In_fst _ _ _ Ea) as Hj.
+    destruct k as [|k']; cbn.
+    + destruct (nodup_remove1 j (running s) Hn) as [N1 N2]. split; [exact N1|].
+      intros x Hx. apply in_map_fst_del. split; [intros E; subst; tauto | apply Hr; apply in_remove1_inv in Hx; exact Hx].
+    + rewrite (map_fst_upd_in j k' (workers s) Hj). split; assumption.
+Qed.
+
+Lemma inv2_run ops : forall s, Inv2 s -> Inv2 (prun false false s ops).
+Proof. induction ops as [|o r IH]; cbn; intros s H; [exact H|]. apply IH. apply inv2_step. exact H. Qed.
+
+Lemma prun_app s a b : prun false false s (a ++ b) = prun false false (prun false false s a) b.
+Proof. unfold prun. apply fold_left_app. Qed.
+
+(* one callback runs to its end *)
+Lemma finish_one j : forall k s, assoc Nat.eqb j (workers s) = Some k ->
+  let s' := prun false false s (repeat (OW j) (S k)) in
+  workers s' = del Nat.eqb j (workers s) /\ pc s' = pc s /\ bad s' = bad s.
+Proof.
+  induction k as [|k IH]; intros s Ha; cbn.
+  - rewrite Ha. cbn. repeat split.
+  - rewrite Ha. cbn.
+    set (s1 := {| pc := pc s; running := running s; queue := S (queue s); workers := upd Nat.eqb j k (workers s);
+                  gone := gone s; bad := bad s |}).
+    assert (Ha1 : assoc Nat.eqb j (workers s1) = Some k).
+    { cbn. clear - Ha. induction (workers s) as [|[j' v'] r IHr]; cbn in *; [discriminate|].
+      destruct (Nat.eqb j j') eqn:E; cbn; [rewrite Nat.eqb_refl; reflexivity | rewrite E; apply IHr; exact Ha]. }
+    destruct (IH s1 Ha1) as (W & P & B). cbn in W, P, B. cbn. rewrite W, P, B. repeat split.
+    clear. induction (workers s) as [|[j' v'] r IHr]; cbn; [rewrite Nat.eqb_refl; reflexivity|].
+    destruct (Nat.eqb j j') eqn:E; cbn; [rewrite Nat.eqb_refl; reflexivity | rewrite E; f_equal; exact IHr].
+Qed.
+
+Lemma del_shorter {B} j (l : list (nat * B)) v : assoc Nat.eqb j l = Some v ->
+  List.length (del Nat.eqb j l) < List.length l.
+Proof.
+  induction l as [|[j' v'] r IH]; cbn; [discriminate|].
+  assert (Hle : forall (l0 : list (nat * B)), List.length (del Nat.eqb j l0) <= List.length l0).
+  { induction l0 as [|[a b] r0 IH0]; cbn; [lia|]. destruct (Nat.eqb j a); cbn; lia. }
+  destruct (Nat.eqb j j'); intros H; [specialize (Hle r); lia | specialize (IH H); cbn; lia].
+Qed.
+
+(* all callbacks run to their ends *)
+Lemma finish_all : forall n s, List.length (workers s) <= n ->
+  exists ops, let s' := prun false false s ops in workers s' = [] /\ pc s' = pc s /\ bad s' = bad s.
+Proof.
+  induction n as [|n IH]; intros s Hl.
+  - exists []. cbn. destruct (workers s); [repeat split | cbn in Hl; lia].
+  - destruct (workers s) as [|[j k] r] eqn:Ew; [exists []; cbn; rewrite Ew; repeat split|].
+    assert (Ha : assoc Nat.eqb j (workers s) = Some k) by (rewrite Ew; cbn; rewrite Nat.eqb_refl; reflexivity).
+    destruct (finish_one j k s Ha) as (W & P & B).
+    set (s1 := prun false false s (repeat (OW j) (S k))) in *.
+    assert (Hl1 : List.length (workers s1) <= n).
+    { rewrite W. pose proof (del_shorter j (workers s) k Ha) as Hd.
+      assert (Hlen : List.length (workers s) = S (List.length r)) by (rewrite Ew; reflexivity). cbn in Hl. lia. }
+    destruct (IH s1 Hl1) as [ops (W2 & P2 & B2)].
+    exists (repeat (OW j) (S k) ++ ops). cbn zeta. rewrite prun_app. fold s1. cbn zeta in W2, P2, B2.
+    rewrite W2, P2, B2, P, B. repeat split.
+Qed.
+
+(* the parent alone, nothing out: it pops what is queued and leaves *)
+Lemma parent_drains : forall q s, queue s = q -> running s = [] -> workers s = [] -> pc s <> PExit ->
+  exists ops, let s' := prun false false s ops in pc s' = PExit /\ bad s' = bad s.
+Proof.
+  induction q as [|q IH]; intros s Hq Hr Hw Hp.
+  - destruct (pc s) eqn:E; [exists [ORead; ORead] | exists [ORead] | exists [OBody 0 []; ORead; ORead] | congruence];
+      cbn; rewrite ?E, ?Hr, ?Hq; cbn; rewrite ?Hr, ?Hq; cbn; rewrite ?Hr, ?Hq; cbn; split; reflexivity.
+  - assert (Hbody : forall s0, queue s0 = S q -> running s0 = [] -> workers s0 = [] -> pc s0 = PBody ->
+                     exists ops, let s' := prun false false s0 ops in pc s' = PExit /\ bad s' = bad s0).
+    { intros s0 Hq0 Hr0 Hw0 Hp0.
+      set (s1 := pstep false false s0 (OBody 0 [])).
+      assert (E1 : s1 = {| pc := PRun; running := running s0 ++ []; queue := q + 0; workers := workers s0 ++ [];
+                           gone := gone s0; bad := bad s0 |}).
+      { unfold s1. cbn. rewrite Hp0, Hq0. unfold fresh. cbn. reflexivity. }
+      destruct (IH s1) as [ops [P B]]; try (rewrite E1; cbn; rewrite ?Hr0, ?Hw0; try reflexivity; try lia; discriminate).
+      exists (OBody 0 [] :: ops). cbn zeta.
+      change (prun false false s0 (OBody 0 [] :: ops)) with (prun false false s1 ops).
+      cbn zeta in P, B. rewrite P, B, E1. cbn. split; reflexivity. }
+    destruct (pc s) eqn:E.
+    + (* PRun: read running (empty) -> PQueue; read queue (S q) -> PBody *)
+      set (s2 := prun false false s [ORead; ORead]).
+      assert (E2 : pc s2 = PBody /\ queue s2 = S q /\ running s2 = [] /\ workers s2 = [] /\ bad s2 = bad s).
+      { unfold s2. cbn. rewrite E, Hr. cbn. rewrite Hq. cbn. rewrite Hr, Hw, Hq. repeat split. }
+      destruct E2 as (P2 & Q2 & R2 & W2 & B2). destruct (Hbody s2 Q2 R2 W2 P2) as [ops [P B]].
+      exists ([ORead; ORead] ++ ops). cbn zeta. rewrite prun_app. fold s2. cbn zeta in P, B. rewrite P, B, B2. split; reflexivity.
+    + set (s2 := prun false false s [ORead]).
+      assert (E2 : pc s2 = PBody /\ queue s2 = S q /\ running s2 = [] /\ workers s2 = [] /\ bad s2 = bad s).
+      { unfold s2. cbn. rewrite E, Hq. cbn. rewrite Hr, Hw, Hq. repeat split. }
+      destruct E2 as (P2 & Q2 & R2 & W2 & B2). destruct (Hbody s2 Q2 R2 W2 P2) as [ops [P B]].
+      exists ([ORead] ++ ops). cbn zeta. rewrite prun_app. fold s2. cbn zeta in P, B. rewrite P, B, B2. split; reflexivity.
+    + apply Hbody; assumption.
+    + congruence.
+Qed.
+
+Theorem poll_can_always_finish enq starts ops :
+  nodupb Nat.eqb (map fst starts) = true ->
+  let s := prun false false (pinit false enq starts) ops in
+  exists more, let s' := prun false false s more in pc s' = PExit /\ bad s' = bad s.
+Proof.
+  intros H s. destruct (inv2_run ops _ (inv2_init enq starts H)) as [HI [Hn Hr]]. fold s in HI, Hn, Hr.
+  destruct (Poll.pc s) eqn:Epc; try (exists []; cbn; split; [exact Epc | reflexivity]).
+  all: destruct (finish_all (List.length (workers s)) s (le_n _)) as [o1 (W & P & B)];
+    set (s1 := prun false false s o1) in *;
+    assert (HI1 : Inv2 s1) by (apply inv2_run; split; [exact HI | split; assumption]);
+    destruct HI1 as [_ [_ Hr1]];
+    assert (R1 : running s1 = []) by (destruct (running s1) as [|x r] eqn:E; [reflexivity | exfalso; specialize (Hr1 x (or_introl eq_refl)); rewrite W in Hr1; exact Hr1]);
+    assert (P1 : pc s1 <> PExit) by (rewrite P, Epc; discriminate);
+    destruct (parent_drains (queue s1) s1 eq_refl R1 W P1) as [o2 [P2 B2]];
+    exists (o1 ++ o2); cbn zeta; rewrite prun_app; fold s1; cbn zeta in P2, B2; rewrite P2, B2, B; split; reflexivity.
+Qed.
